@@ -179,7 +179,7 @@ class Ctx:
         ext = os.path.join(DRIVER, 'ext')
         # the executable models (no proofs) that the driver is extracted from; incremental
         self.ensure_makefile()
-        rc, out, dt0 = sh('make -j16 Arena.vo Colls.vo Parts.vo VecCap.vo Str.vo Pool.vo Conv.vo gen/Bumping.vo gen/SizeCfg.vo gen/LibArith.vo', cwd=COQ, timeout=900)
+        rc, out, dt0 = sh('make -j16 Arena.vo Colls.vo Parts.vo SplitCap.vo VecCap.vo Str.vo Pool.vo Conv.vo gen/Bumping.vo gen/SizeCfg.vo gen/LibArith.vo', cwd=COQ, timeout=900)
         if rc != 0:
             self.problems.append(('extraction', 'the models do not compile:\n' + out[-800:]))
             self.say('models FAILED to compile')
